@@ -261,4 +261,72 @@ MANIFEST = {
         'explanation': "exploration of the real DiGraph.sccs against a Warshall oracle; the proof obligations listed under "
                        "obligations/discharged are the partition / no-exception contract of the whole loop and the filter fragment",
     },
+    'C10': {
+        'text': "Proof: order_by_bases returns a duplicate-free list of exactly the given layers in which no layer precedes "
+                "one of its bases, and (second contract on the same function) the unit-test layer first whenever it is "
+                "present: the real sort key layer_sort_key (with its self-referencing nested _gather, verified as a "
+                "recursive unit) yields () exactly for the unit-test layer and otherwise a tuple ending in the layer's own "
+                "name, so the reverse sort puts the unit layer last, the reversal first; Runner.ordered_layers (what both "
+                "the run loop and --list-tests iterate) yields exactly one group per registered layer name, in that order. "
+                "'Depends only on the set of layers': syntactic obligations on the real source (the ordering functions read "
+                "only their argument, __bases__ and name_from_layer; no global / nonlocal / default-argument state) plus "
+                "keys ending in the layer's own (distinct) name; determinism of sorted() for pairwise distinct keys is the "
+                "stdlib contract. Bounded oracle: all DAGs x namings x discovery orders x hash seeds within its bound.",
+        'note': COMMON_NOTE + "Assumed: sorted() orders by key and is a function of the multiset when keys are pairwise "
+                "distinct; tuples order lexicographically (() least); distinct layers have distinct names; two registered "
+                "names never denote the same layer object; class UnitTests has no base but object (checked on layer.py).",
+    },
+    'C03': {
+        'text': "Proof, function by function, of the selection chain: tests_from_suite yields exactly FLAT(suite) (the tests "
+                "whose nearest level is eligible and which --test accepts, each with its nearest layer, in order, for suite "
+                "trees of any depth); find_tests places every pair of FLAT(suite_1) ++ ... ++ FLAT(suite_k) exactly once, in "
+                "that order, into the suite registered under the pair's own layer name (fresh suite per name, no empty "
+                "suite; ghost placement log, call-site obligations at suite.addTest); Filter.global_setup keeps exactly the "
+                "layer names the unit switch and the --layer patterns select (in a child: only the resumed layer) and never "
+                "touches the suites; Runner.ordered_layers yields one group per registered name, once each; the run loop "
+                "executes the tests of a suite in order, one call each per --repeat iteration (call-site obligation "
+                "test == suite_item(tests, i) in run_tests), runs every yielded layer unless stopped on purpose; the listing "
+                "iterates the same ordered_layers() and passes each group to the formatter; Listing.global_setup clears "
+                "do_run_tests and Runner.run calls run_tests only under it (no test or layer code under --list-tests); a "
+                "child is started with --resume-layer <name>, the parent's defaults and its original arguments.",
+        'note': COMMON_NOTE + "Not decided: that a child process discovers the same files (OS); that user code does not run a "
+                "test itself; 'exactly one process' rests on Filter's child post (only the resumed layer) plus the run "
+                "loop handing each remaining layer to exactly one spawn (resume_tests: see C06). Assumed: two registered "
+                "names never denote the same layer object; generator consumed as its completed result list.",
+    },
+    'C06': {
+        'text': "Proof for sentences 2 and 3 (output order, at most N alive, up to N in progress), for EVERY sequence of "
+                "is_alive()/done observations the OS scheduler can produce: resume_tests is executed symbolically with the "
+                "observations arbitrary under a stated rely (a thread observed dead stays dead; a dead thread's result is "
+                "done; done is monotone). Discharged: one thread per layer wired to the result of the same index, "
+                "consecutive resume numbers; a thread is started once and only into a free slot (len(running) < N at "
+                "thread.start()); every started thread not observed dead occupies a slot of running_threads (so at most N "
+                "children are alive); after the start loop all N slots are taken or nothing waits; the reverse-index reap "
+                "loop deletes exactly the threads observed dead; at stdout.writelines the block is results[printed], seen "
+                "done, written whole; at exit printed == number of layers (each block exactly once, in sequential order). "
+                "The rely's R2 is the proved 'result.done = True in the outermost finally' of spawn_layer_in_subprocess. "
+                "Sentence 1 (a -j N run equals the sequential run) is NOT a postcondition of any function: it is covered only "
+                "as the composition C03 (same selection per child) + C07 (lossless transfer) + C12 (sums), and by the "
+                "bounded oracle with real -j runs.",
+        'note': COMMON_NOTE + "Assumed: the rely R1-R3; threading.Thread/queue.Queue stdlib behaviour; a test's outcome does "
+                "not depend on the process it runs in (sentence 1). The final counting step (members of a list of length "
+                "<= N are at most N threads) is outside SMT. Liveness (the loop terminates) is not decided.",
+    },
+    'C14': {
+        'text': "Proof of the per-directory decision and of the plumbing around it: find_test_files_ (real nested loops and "
+                "the inlined closure update_root2ext) prunes dirs in place to exactly the identifier-named, non-ignored "
+                "ones; at the yield statement the path is join(dirname, f) for a file f of that directory whose stem matches "
+                "the tests pattern or -- inside a package directory that itself matches it and holds an __init__ -- the "
+                "test-file pattern; every such file's stem has its winner yielded; the paths of one directory come out "
+                "sorted; find_test_files yields each path of that stream at its first occurrence only (once, however the "
+                "search paths overlap); find_suites calls import_name only with a module name the --module filter has "
+                "accepted (ghost set of imported modules) and turns import / test_suite errors into StartUpFailure (only "
+                "KeyboardInterrupt leaves); test_dirs yields the search paths, or with --package only package paths under "
+                "a search prefix, each once; get_options sorts the prefixes longest first; strip_py_ext and "
+                "contains_init_py against their specifications.",
+        'note': COMMON_NOTE + "Assumed: os.walk / walk_with_symlinks enumerate the tree top-down, sort dirs and files and "
+                "honour in-place pruning (the traversal itself is not verified); os.path functions and regular "
+                "expressions are pure; the internal assert in find_suites is not decided. Sortedness across directories "
+                "follows from the sorted walk (assumed).",
+    },
 }
